@@ -187,7 +187,7 @@ pub fn gen_srv_case(rng: &mut Rng, profile: Profile, prop: &'static str) -> SrvC
     let kill_pos = if profile == Profile::Kill { Some(rng.below(nsteps)) } else { None };
     let mut gcs: Vec<GClient> = Vec::new();
     let mut cur_limit = limit.unwrap_or(51200);
-    let mut push = |sim: &mut ServerSim, case: &mut SrvCase, s: SStep, st: &mut Stats| -> bool {
+    let push = |sim: &mut ServerSim, case: &mut SrvCase, s: SStep, st: &mut Stats| -> bool {
         case.steps.push(s.clone());
         match sim.step(&s, st) {
             Ok(_) => true,
@@ -283,7 +283,21 @@ pub fn gen_srv_case(rng: &mut Rng, profile: Profile, prop: &'static str) -> SrvC
                 let (script, marks) = if profile == Profile::Limits {
                     build_limit_script(rng, id, cur_limit)
                 } else {
-                    build_script(rng, id, cur_limit, hostile, nreq, true, if profile == Profile::Expect { 800 } else { 200 })
+                    let eb = if profile == Profile::Expect { 800 } else { 200 };
+                    let mut sm = build_script(rng, id, cur_limit, hostile, nreq, true, eb);
+                    if !hostile {
+                        // a well-behaved client's script must be well-formed by the reference model
+                        // (a stray CR/LF can turn a tolerated header value into a fatal one)
+                        for _ in 0..8 {
+                            let m = model_stream(&sm.0, cur_limit, WINDOW);
+                            let reqs = m.events.iter().filter(|e| matches!(e.1, MEvent::Request(_))).count();
+                            if !m.unspecified && !m.events.iter().any(|e| matches!(e.1, MEvent::Error(_))) && reqs == nreq {
+                                break;
+                            }
+                            sm = build_script(rng, id, cur_limit, hostile, nreq, true, eb);
+                        }
+                    }
+                    sm
                 };
                 sim.scripts.push(script.clone());
                 case.scripts.push(script);
